@@ -12,7 +12,9 @@ TEXT = {
 TEXT["C13"] = ("fault_enumeration", "every single cut point (plus multi-cuts and byte-at-a-time) of generated SOCKS5 / HTTP CONNECT / absolute-URI handshakes, well-formed and malformed, against the real client with a real server and target behind it; oracle = exact dial, conformant replies, exact payload, refusal of malformed requests. Exhaustive over single cuts of the sampled handshakes, sampled over the grammar.", "DESIGN.md 4/C13")
 TEXT["C15"] = ("fault_enumeration", "batches of concurrent flows through the real client and server, each ended by one fault of the catalogue (half-close, close, abandon, reset on either side, link cut at a byte offset, target refused / unresolvable / black-holed) at a seeded point of the transfer over tcp/tls/ws/wss; oracle on the history: closing side's data delivered, other side notified within 10 simulated seconds, sockets and tasks of both nodes back at the idle baseline.", "DESIGN.md 4/C15")
 TEXT["C08"] = ("fault_enumeration", "each fault of the catalogue alone and seeded sequences of up to 5 (8) against the real client and server in every protocol/transport cell, stalled connections held open, followed by a fresh canary flow that must be served within 60 simulated seconds (bounded liveness once faults stop), listeners still bound, mains still running.", "DESIGN.md 4/C08")
+TEXT["C02"] = ("exploration", "seeded histories of uniquely numbered datagrams from several local applications to several targets through the real client(s) and server over every UDP-capable configuration, with idle gaps across the table TTLs and, for Shadowsocks, loss / duplication / reordering on the link; oracle over the recorded history: exactly-once (clean) or at-most-once whole-or-nothing (lossy) delivery to the right target, replies to the owning application only, correctly labelled.", "DESIGN.md 4/C02")
 NOTE = {
+ "C02": "trusted base as C01; QUIC rows not covered",
  "C08": "trusted base as C01; fault catalogue is the harness's; TCP side only in this check",
  "C15": "trusted base as C01; 'descriptors' = simulated sockets, 'tasks' = tokio tasks attributed to a node through the runtime's spawn hooks",
  "C13": "trusted base as C01; grammar of requests is the harness's; the application waits for each reply",
